@@ -1359,7 +1359,10 @@ def c19(tier, seed):
             except Exception as e:      # noqa
                 bad.append('create_iHam raised %s' % type(e).__name__)
         for g in h.get_list_extant_genes():
+          try:
             xr = dict(decl.get(g.unique_id, []))
+            if g.get_dict_xref() is None:
+                bad.append('get_dict_xref of gene %s returns None' % g.unique_id); continue
             if (g.gene_id, g.prot_id, g.transcript_id) != (xr.get('geneId'), xr.get('protId'), xr.get('transcriptId')):
                 bad.append('cross references of gene %s' % g.unique_id)
             gx = g.get_dict_xref()
@@ -1385,6 +1388,8 @@ def c19(tier, seed):
                     bad.append('display string of gene %s lacks its id' % g.unique_id)
             except Exception as e:      # noqa
                 bad.append('display string of gene %s raised %s' % (g.unique_id, type(e).__name__))
+          except Exception as e:      # noqa
+            bad.append('reading the ids of gene %s raised %s: %s' % (g.unique_id, type(e).__name__, e)); break
         if bad:
             ex.fail(cid, D, bad)
         ex.submit(cid, D, o.tags, ['load', 'genes', 'loft'], emit=['ann'], extra=o, hist=not (D.meta.get('labels_own') or D.meta.get('wrapped')))
